@@ -237,6 +237,16 @@ impl Mon {
                 if let Some(v) = self.advance_to(*ts) {
                     return Some(v);
                 }
+                // every solicited response answers the request of this step, or a deferred READ;
+                // a READ that a later request superseded is never answered
+                let owed = expect_immediate == Some(r.seq()) || self.deferred == Some(r.seq()) || self.deferred_due.map(|d| d.0) == Some(r.seq());
+                if !owed {
+                    return Some(Violation::new(
+                        "C14.U7d",
+                        "response-to-a-request-that-is-not-owed-one",
+                        format!("solicited response seq {} at t={ts}: no request with that sequence number is waiting for an answer (a superseded deferred READ?)", r.seq()),
+                    ));
+                }
                 // configuration requests take hold when they are answered
                 if let Some((seq, enable, classes)) = pending_cfg {
                     if r.seq() == seq {
